@@ -5,16 +5,16 @@ from .. import tlc, pipeline
 from ..core import Reject
 
 
-def run_tlc_cfg(module, cfg_text, consts, workers=8, want_printed=False, timeout=3000):
+def run_tlc_cfg(module, cfg_text, consts, workers=8, want_printed=False, timeout=3000, dfs=False):
     cfg = tlc.write_cfg(cfg_text, consts)
     try:
-        return tlc.run_tlc(module, cfg, workers=workers, want_printed=want_printed, timeout=timeout)
+        return tlc.run_tlc(module, cfg, workers=workers, want_printed=want_printed, timeout=timeout, dfs=dfs)
     finally:
         os.unlink(cfg)
 
 
-def gen_scripts(rep, name, module, cfg_text, consts, max_obs=400, timeout=3000):
-    r = run_tlc_cfg(module, cfg_text, consts, workers=1, want_printed=True, timeout=timeout)
+def gen_scripts(rep, name, module, cfg_text, consts, max_obs=400, timeout=3000, dfs=False):
+    r = run_tlc_cfg(module, cfg_text, consts, workers=1, want_printed=True, timeout=timeout, dfs=dfs)
     scripts, ntrans, nstates = pipeline.scripts_from_gen(r.printed, max_obs_per_script=max_obs)
     rep.extra.setdefault("generated", []).append({"name": name, "constants": consts, "source_states": nstates,
                                                   "transitions_logged": ntrans, "scripts": len(scripts),
